@@ -934,6 +934,10 @@ def plan(prop, tier, seed, known):
                          "driver": ["conc", "-seed", str(seed * 100 + 60 + i), "-segs", "4" if q else "12", "-steps", "10", "-clients", str(2 + i % 3), "-avoid", av]})
     elif prop == "C04":
         jobs.append({"name": "wingetalloc", "kind": "lin", "also": ["C04"], "driver": ["windows", "-part", "-1", "-parts", "1"]})
+        # the structure of every crash image of a short workload, the initial format included (the full engine runs under C01)
+        for i in range(2 if q else 8):
+            jobs.append(crash_job("crash%d" % i, seed * 100 + 60 + i, "crash", 1, 20 if q else 35, av, disk=3200,
+                                  extra=["-loss", "3" if q else "6", "-cont", "1", "-nested", "0"]))
         n = 5 if q else 40
         for i in range(n):
             jobs.append(seq_job("struct%d" % i, seed * 100 + i, "dirs,names,mix,many,data", 5 if q else 10, 200 if q else 400, av,
